@@ -62,7 +62,7 @@ Record C01F (s : state) : Prop := mkC01F {
   FK1 : forall t i o i' o', In (i, o) (t_ops (get_task s t)) -> In (i', o') (t_ops (get_task s t)) -> i_sk i = i_sk i';
   FK2 : forall t w i o, t_worker (get_task s t) = Some w -> In (i, o) (t_ops (get_task s t)) -> i_sk i = w_sk w;
   FMN : forall t w, t_worker (get_task s t) = Some w -> t_ops (get_task s t) <> [];
-  FI : forall i, inv_exists s i = true -> scq_exists s (i_sk i) = true }.
+  F_inv_scq : forall i, inv_exists s i = true -> scq_exists s (i_sk i) = true }.
 
 Section Assembly.
   Variable s : state.
@@ -118,7 +118,7 @@ Section Assembly.
         unfold queued in Hq. rewrite Eg in Hq.
         assert (Hie : inv_exists s (o_inv x) = true).
         { unfold inv_exists, get_inv in *. destruct (aget iref_eqb (o_inv x) (s_invs s)); [reflexivity|destruct Hq]. }
-        destruct (F_pq s F _ (FI s F _ Hie)) as [p [Hp [Hk Hc]]].
+        destruct (F_pq s F _ (F_inv_scq s F _ Hie)) as [p [Hp [Hk Hc]]].
         rewrite (find_scq_observe s (i_sk (o_inv x)) p Hp Hk Hc). rewrite find_dinv_observe, iref_eta.
         unfold get_inv in Hq. destruct (aget iref_eqb (o_inv x) (s_invs s)) as [v|]; [|destruct Hq].
         cbn [di_qops observe_inv]. assert (E : existsb (Nat.eqb o) (v_qops v) = true) by (apply existsb_exists; exists o; split; [exact Hq|apply Nat.eqb_refl]).
